@@ -98,6 +98,17 @@ class FakeSock(object):
         self.res.closed = True
 
 
+_LOOP = [None]
+
+
+def _loop():
+    """one event loop per process (creating a loop per history costs more than the history)"""
+    if _LOOP[0] is None or _LOOP[0].is_closed():
+        _LOOP[0] = asyncio.new_event_loop()
+        asyncio.set_event_loop(_LOOP[0])
+    return _LOOP[0]
+
+
 def feed(front, framing, context, reads, **opts):
     res = Result()
     try:
@@ -108,13 +119,8 @@ def feed(front, framing, context, reads, **opts):
         elif front == 'sync-udp':
             _sync_udp(res, framing, context, reads, opts)
         elif front in ('aio-tcp', 'aio-udp'):
-            loop = asyncio.new_event_loop()
-            try:
-                asyncio.set_event_loop(loop)
-                loop.run_until_complete((_aio_tcp if front == 'aio-tcp' else _aio_udp)(res, framing, context, reads, opts))
-            finally:
-                asyncio.set_event_loop(None)
-                loop.close()
+            loop = _loop()
+            loop.run_until_complete((_aio_tcp if front == 'aio-tcp' else _aio_udp)(res, framing, context, reads, opts))
         elif front == 'tw-tcp':
             _tw_tcp(res, framing, context, reads, opts)
         elif front == 'tw-udp':
